@@ -134,7 +134,7 @@ func validNoNul(b []byte) bool {
 
 func runC05(cfg *runCfg) error {
 	r := rand.New(rand.NewSource(cfg.seed))
-	cf := newCasesFile("C05", "Codec", "SpecDecode", "Inbound", "Parse", "CheckC05")
+	cf := newCasesFile("C05", "Codec", "SpecDecode", "Inbound", "Parse", "C05Flows", "CheckC05")
 	m := &meta{Property: "C05", Distribution: map[string]interface{}{}, Families: map[string][]interface{}{}}
 	scale := 1
 	if cfg.tier != "quick" {
@@ -515,6 +515,11 @@ func runC05(cfg *runCfg) error {
 		return err
 	}
 
+	nResub, err := c05Resub(cfg, cf, m, dist)
+	if err != nil {
+		return err
+	}
+
 	total := 0
 	keys := []string{}
 	for k, v := range dist {
@@ -522,10 +527,10 @@ func runC05(cfg *runCfg) error {
 		keys = append(keys, k)
 	}
 	sort.Strings(keys)
-	total = len(connCases) + len(pubCases) + len(subCases) + len(unsubCases) + len(smallCases) + len(lenCases) + len(bigCases) + len(inCases) + len(inbigCases) + nInseq + nRetry + nLong
+	total = len(connCases) + len(pubCases) + len(subCases) + len(unsubCases) + len(smallCases) + len(lenCases) + len(bigCases) + len(inCases) + len(inbigCases) + nInseq + nRetry + nLong + nResub
 	m.Evaluations = total
 	m.DistinctNontrivial = len(connCases) + len(pubCases) + len(subCases) + len(inCases) - dist["publish_rejected"] + nInseq + nRetry + nLong + nLong
-	m.Rule = "public API only: Connect with random option combinations (will, credentials, levels, keep-alive), Publish (all QoS/retain/ids, MaxPayloadLen boundaries, invalid QoS), Subscribe/Unsubscribe lists, Ping/Disconnect and the reader's acknowledgements on an in-memory transport; bytes written are compared with the model and decoded by the independent decoder inside Coq; remainingLength at every boundary +-3 and random values; payload lengths across the 1/2/3/4-byte boundaries as header prefix + total length; inbound PUBLISH delivered through the real serve loop; inbound sequences (60 systematic: a QoS 2 PUBLISH, 1-4 packets of one kind with shorter/equal/longer bodies, its PUBREL; random: PUBLISH of all QoS, stray acknowledgements, SUBACKs, PINGRESPs, every QoS 2 message released after 1-4 other packets) fed as one byte stream, the handler's snapshots compared with the independent decoder's reading of the stream; retry handles: QoS 1/2 Publish, Subscribe, Unsubscribe interrupted by a write error / the peer closing / context cancellation at every point of the exchange, the returned ErrorWithRetry retried on a fresh connected BaseClient (and interrupted once more: retry of a retry), every packet handed to every transport decoded inside Coq. length-prefixed fields of 65,534 / 65,535 / 65,536 / 65,537 / 70,000 / 131,072 / 131,073 bytes in every position (CONNECT client id, will topic, will payload, user name, password; every SUBSCRIBE / UNSUBSCRIBE filter position; PUBLISH topic): either rejected (error or recovered panic) with nothing written, or the written packet decodes to the request. distinct_nontrivial = connect + accepted publish + subscribe + inbound cases + inbound sequences + retry scripts + long-field cases (randomly generated, duplicates not removed: counted conservatively as generated minus rejected)"
+	m.Rule = "public API only: Connect with random option combinations (will, credentials, levels, keep-alive), Publish (all QoS/retain/ids, MaxPayloadLen boundaries, invalid QoS), Subscribe/Unsubscribe lists, Ping/Disconnect and the reader's acknowledgements on an in-memory transport; bytes written are compared with the model and decoded by the independent decoder inside Coq; remainingLength at every boundary +-3 and random values; payload lengths across the 1/2/3/4-byte boundaries as header prefix + total length; inbound PUBLISH delivered through the real serve loop; inbound sequences (60 systematic: a QoS 2 PUBLISH, 1-4 packets of one kind with shorter/equal/longer bodies, its PUBREL; random: PUBLISH of all QoS, stray acknowledgements, SUBACKs, PINGRESPs, every QoS 2 message released after 1-4 other packets) fed as one byte stream, the handler's snapshots compared with the independent decoder's reading of the stream; retry handles: QoS 1/2 Publish, Subscribe, Unsubscribe interrupted by a write error / the peer closing / context cancellation at every point of the exchange, the returned ErrorWithRetry retried on a fresh connected BaseClient (and interrupted once more: retry of a retry), every packet handed to every transport decoded inside Coq. length-prefixed fields of 65,534 / 65,535 / 65,536 / 65,537 / 70,000 / 131,072 / 131,073 bytes in every position (CONNECT client id, will topic, will payload, user name, password; every SUBSCRIBE / UNSUBSCRIBE filter position; PUBLISH topic): either rejected (error or recovered panic) with nothing written, or the written packet decodes to the request. re-subscription: Subscribe/Unsubscribe histories through a RetryClient whose broker grants min(requested, cap) (last scenarios: 0x80), connection cut, fresh BaseClient via SetClient, Connect without session, Resubscribe+Retry, once or twice; every packet after the CONNECT of the later connections decoded. distinct_nontrivial = connect + accepted publish + subscribe + inbound cases + inbound sequences + retry scripts + long-field cases + re-subscription scenarios (randomly generated, duplicates not removed: counted conservatively as generated minus rejected)"
 	_ = context.Background
 	if err := cf.write(cfg.outDir); err != nil {
 		return err
